@@ -144,12 +144,14 @@ func (s *ldapService) setHandlers() {
 				// anonymous bind is ok
 				if cred.Len() == 1 { // empty credentials (":")
 					s.login = ""
+					s.authenticated = false
 					return true
 				}
 
 				for _, u := range s.Credentials {
-					if u == cred.String() {
+					if u == "*" || u == cred.String() {
 						s.login = binddn
+						s.authenticated = true
 						return true
 					}
 				}
@@ -212,6 +214,7 @@ func (s *ldapService) Handle(ctx context.Context, conn net.Conn) error {
 	s.wantTLS = false
 
 	s.login = "" // set the anonymous authstate
+	s.authenticated = false
 
 	s.Conn = NewConn(conn)
 
